@@ -11,13 +11,31 @@ from vlib import Machinery, log
 
 
 def mc(ctx, depth, variant, liveness=True, timeout=1800, spellings="AllSpellings"):
-    cfg = "SPECIFICATION Spec\nCONSTANTS Depth = %d Variant = \"%s\" Spellings <- %s\nINVARIANTS Correct NeverAboveStop\n%s" % (
+    cfg = "SPECIFICATION Spec\nCONSTANTS Depth = %d Variant = \"%s\" Spellings <- %s\nINVARIANTS Correct NeverAboveStop CorrectAgree\n%s" % (
         depth, variant, spellings, "PROPERTY Terminates\n" if liveness else "")
     return vlib.tlc(ctx, "Find", cfg, workers=min(12, vlib.NCPU), timeout=timeout, heap="10g")
 
 
 SPELLINGS = [("clean", "clean"), ("slash", "clean"), ("clean", "slash"), ("slash", "slash"), ("dotted", "clean"), ("clean", "dotted"),
              ("rel", "clean"), ("clean", "rel"), ("rel", "rel")]
+
+
+def tlaps_proof(ctx):
+    """FindProof.tla: Correct (CHOOSE-free form) and NeverAboveStop for every Depth, by TLAPS. -> (obligations, proved)"""
+    import re
+    import shutil
+    wd = ctx.sub("tlaps")
+    for f in ("Find.tla", "FindProof.tla"):
+        shutil.copyfile(os.path.join(vlib.SPEC, f), os.path.join(wd, f))
+    try:
+        p = subprocess.run(["tlapm", "--threads", str(min(16, vlib.NCPU)), "FindProof.tla"], cwd=wd, capture_output=True, text=True, timeout=1500)
+    except subprocess.TimeoutExpired:
+        raise Machinery("tlapm timed out on FindProof.tla")
+    out = p.stdout + p.stderr
+    m = re.search(r"All (\d+) obligations proved", out)
+    if p.returncode != 0 or not m:
+        raise Machinery("tlapm did not prove FindProof.tla: %s" % out[-1500:])
+    return int(m.group(1)), int(m.group(1))
 
 
 def dir_opts(full):
@@ -145,6 +163,10 @@ def run(ctx):
     if strs.violated != "Correct":
         raise Machinery("vacuity probe: the walk that compares path strings is not refuted by the spellings (%s)" % (strs.violated or strs.error))
     log("Find MC: %d distinct states (every configuration, start, stop); terminates; pinned variant refuted (%s)" % (m.distinct, pin.violated))
+    proof = None
+    if tier != "quick":
+        proof = tlaps_proof(ctx)
+        log("FindProof (TLAPS): %d obligations, all proved: CorrectP and NeverAboveStop hold for every Depth" % proof[0])
     scen = scenarios(tier, ctx.seed)
     nsh = vlib.NCPU
     shards = [scen[i::nsh] for i in range(nsh)]
@@ -198,6 +220,8 @@ def run(ctx):
         "traces_validated_against_impl": len(recs),
         "samples": [{"scenario": {k: s[k] for k in ("levels", "u", "start", "stop", "startSp", "stopSp", "cwd")}, "observed": {k: r.get(k) for k in ("outcome", "level")}} for s, r in rnd.sample(pairs, 3)],
         "evaluations": len(recs),
+        **({"obligations": proof[0], "discharged": proof[1], "proof": {"module": "FindProof", "tool": "tlapm", "theorems": ["Safety", "CorrectForEveryDepth", "NeverAbove"],
+                                                                    "scope": "Variant = fixed, every Depth in Nat, every set of spellings"}} if proof else {}),
         "distinct_nontrivial": ncf + nun,
         "rule": "directory chains of depth <= %d (each level: no / regular-file / directory entry named spokfile, other entries sorting before and/or after "
                 "it where they can matter) x every start level x every stop in {each level, an unrelated directory}, built on disk and searched with "
